@@ -12,7 +12,7 @@ ASSUMPTIONS = [
     "elements_added arbitrary (it is only incremented)",
 ]
 BOUNDS = {
-    "quick": "boundary sweep: est 1..64 x rates .05...5 (10 values), newest counter at est-1 and est, real float statistics; est in {1,2,3,5}, 1..3 sub-filters (one-hash geometry) and est 1..3 with 1..2 two-hash sub-filters, add of a new / duplicate / forced key and push; histories of 4 adds from fresh with est 1..2; restore-from-export of 1..3 sub-filters",
+    "quick": "boundary sweep: est 1..64 x rates .05...5 (10 values) and est 257, 300 at rate .5, newest counter at est-1 and est, real float statistics; est in {1,2,3,5}, 1..3 sub-filters (one-hash geometry) and est 1..3 with 1..2 two-hash sub-filters, add of a new / duplicate / forced key and push; histories of 4 adds from fresh with est 1..2; restore-from-export of 1..3 sub-filters",
     "thorough": "adds 3 two-hash sub-filters and est 8; boundary sweep est 1..128 with the counter also at est-2",
     "outside": "more than 3 sub-filters in the pre-state (the step is independent of the number of full older filters, but that is not decided here); est > 8",
 }
@@ -121,6 +121,12 @@ def boundary_jobs(tier, rotating):
     for est in range(1, 65 if tier == "quick" else 129):
         for rate in BOUNDARY_RATES:
             for c in sorted({est - 1, est} | ({max(0, est - 2)} if tier == "thorough" else set())):
+                js.append({"h": "c09.boundary", "cfg": {"est": est, "rate": rate, "c": c, "L": 2 if rotating else 1, "rotating": rotating},
+                           "opts": {"cost": est, "no_witness": c != est - 1}})
+    # sizes beyond CPython's shared small integers (a rule written with `is` instead of `==` behaves differently from 257 on)
+    for est in (257, 300):
+        for rate in (.5,):
+            for c in (est - 1, est):
                 js.append({"h": "c09.boundary", "cfg": {"est": est, "rate": rate, "c": c, "L": 2 if rotating else 1, "rotating": rotating},
                            "opts": {"cost": est, "no_witness": c != est - 1}})
     return js
